@@ -22,7 +22,7 @@ def _set_after(out, tag):
 
 def run_c09(ctx):
     ctx.build_harness()
-    maxlen, vals = (6, '{0, 1, 2}') if ctx.quick else (8, '{0, 1, 2, 3}')
+    maxlen, vals = (6, '{0, 1, 2}') if ctx.quick else (7, '{0, 1, 2}')
     # the algorithm model satisfies the laws for every input and ranker (TLC, exhaustive)
     mlen = maxlen if ctx.quick else 7
     out = _tlc_const(ctx, 'MergeSort', {'MODE': '"model"', 'MaxLen': mlen, 'Vals': vals}, name='MS_model')
